@@ -19,7 +19,11 @@ import (
 func init() { Register("C07", runC07) }
 
 type ixConfig struct {
-	Name  string
+	// UniqueOnData: the unique index is on value fields, so data sets and writes that duplicate a
+	// tuple are rejected by the indexed twin only; such cases are skipped here (the exact rejection
+	// rule is the subject of the unique-index search), all others are compared as usual.
+	UniqueOnData bool
+	Name         string
 	SDL   string                      // schema with the indexes declared (created before the data)
 	After []client.IndexCreateRequest // indexes created through the API after the data was loaded
 }
@@ -37,6 +41,7 @@ func c07Configs() []ixConfig {
 		{Name: "composite b desc, a asc", SDL: `type T @index(includes: [{field: "b", direction: DESC}, {field: "a", direction: ASC}]) { u: Int  a: Int  b: Int  s: String }`},
 		{Name: "composite s, a", SDL: `type T @index(includes: [{field: "s"}, {field: "a"}]) { u: Int  a: Int  b: Int  s: String }`},
 		{Name: "unique u + a asc", SDL: `type T { u: Int @index(unique: true)  a: Int @index  b: Int  s: String }`},
+		{Name: "unique composite a, b", SDL: `type T @index(unique: true, includes: [{field: "a"}, {field: "b"}]) { u: Int  a: Int  b: Int  s: String }`, UniqueOnData: true},
 		{Name: "a asc (created after data)", SDL: c08SDL, After: []client.IndexCreateRequest{{Fields: []client.IndexedFieldDescription{f("a", false)}}}},
 		{Name: "composite b desc, s (created after data)", SDL: c08SDL, After: []client.IndexCreateRequest{{Fields: []client.IndexedFieldDescription{f("b", true), f("s", false)}}}},
 	}
@@ -225,6 +230,9 @@ func runC07(args []string) int {
 func c07Case(r *rep.Run, t *twin, docs []qx.Doc, filters []qx.Filter, orders [][]qx.OrderKey, sample bool) (evals, rebuilds, histories int, outcomes map[string]struct{}) {
 	outcomes = map[string]struct{}{}
 	if err := t.load(docs); err != nil {
+		if t.cfg.UniqueOnData && strings.Contains(err.Error(), "unique") {
+			return
+		}
 		rep.HarnessError("load %v into %s: %v", docs, t.cfg.Name, err)
 	}
 	desc := func() string {
@@ -394,6 +402,9 @@ func c07Case(r *rep.Run, t *twin, docs []qx.Doc, filters []qx.Filter, orders [][
 		_, ea := world.Exec(t.ctx, t.plain.db, req)
 		_, eb := world.Exec(t.ctx, t.ix.db, req)
 		if strings.Join(ea, ";") != strings.Join(eb, ";") {
+			if t.cfg.UniqueOnData && len(ea) == 0 && strings.Contains(strings.Join(eb, ";"), "unique") {
+				return false // rejected by the unique index only: the twins have diverged, skip this history
+			}
 			viol("write-outcome-differs", req, fmt.Sprintf("plain %v, indexed %v", ea, eb))
 			return false
 		}
